@@ -962,3 +962,35 @@ TARGETS += [
          patterns=VRPATS + [('hash(_t)', {'_t': 'hkey'}, '{_t}', 'hkey')] +
                   [("self.attrs.get('%s')" % k, {}, '(attr a %d%%nat)' % i, 'optstr') for i, k in enumerate(HASH_ATTRS)]),
 ]
+
+# ---------------------------------------------------------------------------------------------- C11 CDS sequence
+# (24) gtf/TranscriptAnnotationModel.py get_cdna_sequence: from the empty-CDS test to the single reverse complement
+#      (segment loop in list order, ORF start computed before the strand correction)      vs Anno.cdna_sequence
+#      Observable: (sequence, reference start) -- the MatchedLocation / record built afterwards only packages them.
+#      Trusted: chrom.seq[a:b] is Anno.exon_seq (Python slice of the chromosome), Seq + Seq is list append,
+#      Seq.reverse_complement is Anno.revcomp with the regenerated complement table, self.get_cds_start_index() is
+#      the MODEL cds_start_index (tied to its own code by its own obligation); the comprehension
+#      `[it.location for it in self.cds]` is the list of (start, end) of the CDS records (Anno.cds_segments); the pinned
+#      statement `if seq is None: seq = new_seq else: seq = seq + new_seq` is append-to-optional.
+TARGETS.append(
+    dict(TAM, out='Py_TAM_cdna', func='get_cdna_sequence', coq_name='py_cdna_sequence',
+         errors=dict(ANNO_ERRORS, AttributeError='(Err EType)'),
+         args=[('tbl', 'list (Z * Z)'), ('strand', 'Z'), ('ex', 'list exon'), ('cs', 'list cds'), ('chrom', 'seq')],
+         types={'cdnares': '(seq * Z)'},
+         params={'chrom': ('chrom', 'seq')},
+         slice=('if len(self.cds) == 0:', 'if self.transcript.strand == -1:'),
+         slice_pre=[], slice_post=['return pair__(seq, cds_start)'],
+         ret_ty='cdnares', res_ty='res (seq * Z)', ok='(Ok {})', stub='Err EType',
+         raises=[('ValueError', 'any', None, '(Err EValue)')],
+         var_types={'seq': 'opt list Z'},
+         stmt_rewrites=[('locations = [it.location for it in self.cds]', 'locations = cds_locations__()'),
+                        ('if seq is None:\n    seq = new_seq\nelse:\n    seq = seq + new_seq', 'seq = append_opt__(seq, new_seq)')],
+         patterns=TXMODEL_SELF + [
+             ('append_opt__(_a, _b)', {'_a': 'opt list Z', '_b': 'list Z'},
+              '(Some (match {_a} with None => {_b} | Some a__ => a__ ++ {_b} end))', 'opt list Z'),
+             ('cds_locations__()', {}, '(cds_segments cs)', 'list exon'),
+             ('chrom.seq[_l.start:_l.end]', {'_l': 'exon'}, '(exon_seq chrom {_l})', 'list Z'),
+             ('self.get_cds_start_index()', {}, '(cds_start_index strand ex cs)', 'res Z'),
+             ('_s.reverse_complement()', {'_s': 'opt list Z'}, '(option_map (revcomp tbl) {_s})', 'opt list Z'),
+             ('pair__(_s, _z)', {'_s': 'opt list Z', '_z': 'Z'},
+              '(match {_s} with Some s__ => Some (s__, {_z}) | None => None end)', 'opt:AttributeError:cdnares')]))
